@@ -16,6 +16,8 @@ vars == <<l, hi>>
 Has(e, f) == f \in DOMAIN e
 
 MaxMsg == B4!MOpt(57, <<5, 220>>)
+\* the caller's own modifiers (harness/leasesim): host name "leasesim", two more requested options, class identifier "vh"
+UserMods == <<B4!MOpt(12, <<108, 101, 97, 115, 101, 115, 105, 109>>), B4!M("reqopts", <<42, 67>>), B4!MOpt(60, <<118, 104>>)>>
 Mac == <<2, 0, 0, 0, 0, 7>>
 Kind4(tx) == LET t == B4!OptVal(tx.pkt, 53) IN IF t = <<1>> THEN "first" ELSE IF t = <<3>> THEN "second" ELSE "other"
 SidOf(pkt) == B4!OptVal(pkt, 54)
@@ -29,18 +31,18 @@ Agree4(x, o) ==
     /\ \A i \in 1..n : o.txs[i].dest = "255.255.255.255:67"
     \* DISCOVER: hardware address, parameter request list, message type, maximum message size
     /\ \A i \in 1..n : x.txs[i] = "first" =>
-           o.txs[i].pkt = B4!Build("Discovery", [hw |-> Mac], <<MaxMsg>>, o.txs[i].pkt.xid) /\ o.txs[i].pkt = o.txs[1].pkt
+           o.txs[i].pkt = B4!Build("Discovery", [hw |-> Mac], <<MaxMsg>> \o UserMods, o.txs[i].pkt.xid) /\ o.txs[i].pkt = o.txs[1].pkt
     \* REQUEST: built from the accepted OFFER (its transaction id, offered address, server identifier)
     /\ \A i \in 1..n : x.txs[i] = "second" =>
            /\ LET offerpkt == o.sentpkts[ToString(x.oi)] IN
-              o.txs[i].pkt = B4!Build("RequestFromOffer", offerpkt, <<MaxMsg>>, offerpkt.xid)
+              o.txs[i].pkt = B4!Build("RequestFromOffer", offerpkt, <<MaxMsg>> \o UserMods, offerpkt.xid)
            /\ o.txs[i].pkt.ch = Mac
     \* renewal: leased address in ciaddr, unicast flag, no requested-address / server-identifier option;
     \* completed only by that server's ACK (a NAK from another server is ignored)
     /\ Has(o, "renew") =>
            LET r == o.renew sid == x.offer[1].sid IN
            /\ Len(r.txs) >= 1
-           /\ r.txs[1].pkt = B4!Build("RenewFromAck", r.ackpkt, <<MaxMsg>>, r.ackpkt.xid)
+           /\ r.txs[1].pkt = B4!Build("RenewFromAck", r.ackpkt, <<MaxMsg>> \o UserMods, r.ackpkt.xid)
            /\ \A i \in 1..Len(r.txs) : r.txs[i].pkt = r.txs[1].pkt /\ r.txs[i].dest = "255.255.255.255:67"
            /\ r.ok = (sid # "B")                       \* the scripted NAK comes from server B
            /\ (r.ok => r.sameoffer)
@@ -48,7 +50,7 @@ Agree4(x, o) ==
     /\ Has(o, "release") =>
            LET r == o.release IN
            /\ r.ok /\ Len(r.txs) = 1
-           /\ r.txs[1].pkt = B4!Build("ReleaseFromACK", r.ackpkt, <<>>, r.txs[1].pkt.xid)
+           /\ r.txs[1].pkt = B4!Build("ReleaseFromACK", r.ackpkt, UserMods, r.txs[1].pkt.xid)
            /\ r.txs[1].dest = DestOf(SidOf(r.ackpkt))
 
 Kind6(tx) == IF ~Has(tx, "mt") THEN "other" ELSE IF tx.mt = 1 THEN "first" ELSE IF tx.mt = 3 THEN "second" ELSE "other"
